@@ -28,6 +28,7 @@ def run(ctx):
     R.rule("C13-R2", "(shared with C14) skipped operands are not evaluated", floor=3)
     R.rule("C13-R3", "conditional stack: push once per opening directive, pop only in #endif", floor=10)
     R.rule("C13-R4", "(shared with C14) #if literals narrowed only under a magnitude test", floor=2)
+    R.rule("C13-R5", "kept lines: a conditional opened inside a skipped group is inert (pushed with ignoring|finishedIf), a group is entered from #elif/#else only while no group was taken, and leaving the taken group marks the #if finished", floor=8)
 
     el = prog.fn(PP + "processElif")
     cfg = el.cfg
@@ -148,12 +149,96 @@ def run(ctx):
     pc = poppers.get(en.q, [])
     ok = len(pc) == 1 and any(pol and noid(k).replace(" ", "") == "(this->status&occa::lang::ppStatus::foundIf)" for (k, pol) in fs_.facts_at(pc[0]))
     R.ob("C13-R3", ok, en.q, "#endif pops iff inside an #if", en.site(pc[0]) if pc else en.relfile, "pop guarded by foundIf")
+    kept_lines(prog, R, pushers)
+
+
+def _flags(e):
+    return {x.get("n", "").split("::")[-1] for x in walk(e) if x["k"] == "DeclRefExpr" and x.get("n", "").startswith("occa::lang::ppStatus::")}
+
+
+def _status_fact(facts, flag):
+    """polarity of `status & ppStatus::<flag>` among branch facts, or None"""
+    want = "(this->status&occa::lang::ppStatus::%s)" % flag
+    for (k, pol) in facts:
+        if noid(k).replace(" ", "") == want:
+            return pol
+    return None
+
+
+def kept_lines(prog, R, pushers):
+    # (a) what is pushed, in which context
+    gi = prog.fn(PP + "getIfdef")
+    inherited = {}
+    for q in (PP + "processIfdef", PP + "processIfndef"):
+        f = prog.fn(q)
+        IN = f.cfg.facts_in()
+        for c_ in f.walk():
+            if c_["k"] == "CXXMemberCallExpr" and callee(c_) == gi.q:
+                inherited[(q, c_["i"])] = _status_fact(f.cfg.facts_at(c_, IN), "ignoring")
+    other_callers = [f.q for f in prog.funcs.values() for c_ in f.walk() if c_["k"] == "CXXMemberCallExpr" and callee(c_) == gi.q and f.q not in (PP + "processIfdef", PP + "processIfndef")]
+    if not inherited:
+        raise AnalysisBroken("getIfdef has no call site in processIfdef/processIfndef")
+    gi_ctx = False if (all(v is False for v in inherited.values()) and not other_callers) else None
+    for q in sorted(PUSHERS):
+        f = prog.fn(q)
+        IN = f.cfg.facts_in()
+        for pc in pushers.get(q, []):
+            fl = _flags(call_args(pc)[0])
+            ctx = _status_fact(f.cfg.facts_at(pc, IN), "ignoring")
+            if ctx is None and q == gi.q:
+                ctx = gi_ctx
+            if ctx is None and q != gi.q and any(pol and "getIfdef(" in noid(k) and not noid(k).lstrip("(").startswith("!") for (k, pol) in f.cfg.facts_at(pc, IN)):
+                # reached only after getIfdef() returned true: inherit what holds at its `return true` statements
+                GIN = gi.cfg.facts_in()
+                rets = [r for r in gi.walk() if r["k"] == "ReturnStmt" and literal(kids(r)[0]) is True]
+                if rets and all(_status_fact(gi.cfg.facts_at(r, GIN), "ignoring") is False for r in rets):
+                    ctx = False
+            if ctx is False:
+                ok = "foundIf" in fl and ("reading" in fl or "ignoring" in fl)
+                why = "opened in a kept group: pushes foundIf with reading/ignoring" if ok else "the pushed status lacks foundIf (the matching #endif would not pop it) or a reading/ignoring state"
+            else:
+                ok = {"foundIf", "ignoring", "finishedIf"} <= fl and "reading" not in fl
+                why = ("opened inside a skipped group: pushed inert (ignoring|finishedIf), so its own #elif/#else cannot re-enable reading" if ok else
+                       "a conditional opened while the enclosing group is skipped%s is pushed without ignoring|finishedIf: `#if 0 / #ifdef X / #else / kept? / #endif / #endif` keeps a line C drops"
+                       % ("" if ctx else " (not excluded at this site)"))
+            R.ob("C13-R5", ok, q, "push@%s flags=%s" % ("skipped" if ctx is not False else "kept", "|".join(sorted(fl))), f.site(pc), why)
+    # (b) entering / (c) leaving a group from #elif / #else
+    for q in (PP + "processElif", PP + "processElse"):
+        f = prog.fn(q)
+        cf = f.cfg
+        IN = cf.facts_in()
+        n_ev = 0
+        for n in f.walk():
+            enters = leaves = False
+            if n["k"] == "CXXMemberCallExpr" and callee(n) == PP + "swapReadingStatus":
+                rd = _status_fact(cf.facts_at(n, IN), "reading")
+                leaves = rd is True
+                enters = not leaves
+            elif n["k"] == "BinaryOperator" and n.get("op") == "=" and noid(render(kids(n)[0], False)).replace(" ", "") == "this->status" and "reading" in _flags(kids(n)[1]):
+                enters = True
+            elif n["k"] == "CompoundAssignOperator" and n.get("op") == "|=" and noid(render(kids(n)[0], False)).replace(" ", "") == "this->status" and "reading" in _flags(kids(n)[1]):
+                enters = True
+            if enters:
+                n_ev += 1
+                fs = cf.facts_at(n, IN)
+                ok = _status_fact(fs, "finishedIf") is False
+                R.ob("C13-R5", ok, q, "enter group only if !(status & finishedIf): %s" % noid(render(n, False))[:50], f.site(n),
+                     "reading is switched on only while no group of this #if has been taken and the #if is not inside a skipped group" if ok else
+                     "reading is switched on without excluding finishedIf: a second group of one #if (or a group of an #if nested in a skipped region) is kept")
+            if leaves:
+                n_ev += 1
+                marks = [m for m in f.walk() if m["k"] == "CompoundAssignOperator" and m.get("op") == "|=" and "finishedIf" in _flags(kids(m)[1])]
+                p = cf.find_path(cf.position(n), "exit", lambda b, i, e: any(e == m["i"] for m in marks))
+                R.ob("C13-R5", p is None, q, "leaving the taken group sets finishedIf", f.site(n),
+                     "every path after the taken group ends marks the #if finished" if p is None else "the taken group ends without finishedIf: a later #elif/#else of the same #if can be taken as well", path=p)
+        if n_ev == 0:
+            raise AnalysisBroken("%s: no reading-state transition found" % q)
 
 
 META = {
-    "technique": "guard dominance (branch-fact dataflow) on the evaluation call in #elif / #if; who-may-call and path counting for pushStatus / popStatus; re-use of the C14 control-dependence and narrowing checks",
+    "technique": "guard dominance (branch-fact dataflow) on the evaluation call in #elif / #if and on every reading-state transition; flag-set check of every pushed status against its context; who-may-call and path counting for pushStatus / popStatus; re-use of the C14 control-dependence and narrowing checks",
     "level": "Static all-paths decision that #elif and nested #if conditions are evaluated exactly when C evaluates them (candidate group, not in an ignored region), that skipped operands of && || ?: are not evaluated, "
-             "that #if literals get C's types, and that the conditional stack is pushed exactly once per opening directive on every path (error paths included) and popped only by #endif. These are the clauses of the statement "
+             "that #if literals get C's types, that the line-keeping state machine cannot re-enable reading inside a skipped group or after a taken group (pushed flags and #elif/#else transitions), and that the conditional stack is pushed exactly once per opening directive on every path (error paths included) and popped only by #endif. These are the clauses of the statement "
              "about 'expressions that C never evaluates'; agreement of macro expansion with cpp is an oracle comparison and is not claimed.",
     "note": "Macro expansion (object-like, function-like, variadic, #undef) is not decided here: it would need the C preprocessor as an oracle or a semantic model of rescanning, neither of which is static analysis of this code base.",
 }
